@@ -519,6 +519,57 @@ fn perm_subs(run: &Arc<Run>) -> Vec<Arc<dyn Sub>> {
             |cidx| json!({"states": format!("{}..{} of {{0,2^32-1,2^32,p-1}}^8 (exhaustive)", cidx * 256, (cidx + 1) * 256)}),
         ));
     }
+    // ---- the same products on states given by their INTERNAL words (the fast path works on the Montgomery
+    // words, so its carry cases are boundary words, not boundary residues): every state over boundary words
+    {
+        let words: Vec<u64> = if thorough { vec![0, (1 << 32) - 1, 1 << 32, (P64 - 1) as u64, u64::MAX] } else { vec![0, 1 << 32, (P64 - 1) as u64, u64::MAX] };
+        let nw = words.len() as u64;
+        for (width, name) in [(12usize, "mds12x12.fast_path.internal_words"), (8, "mds8x8.fast_path.internal_words")] {
+            let total = nw.pow(width as u32);
+            let chunk = 16384u64;
+            let words = words.clone();
+            let w2 = words.clone();
+            subs.push(sub_t(
+                name,
+                (total + chunk - 1) / chunk,
+                120,
+                true,
+                move |cidx, out| {
+                    let mds = if width == 12 { RP64.mds.clone() } else { RPJ.mds.clone() };
+                    let hi = ((cidx + 1) * chunk).min(total);
+                    for idx in cidx * chunk..hi {
+                        let mut i = idx;
+                        let mut st_words = vec![0u64; width];
+                        for w in st_words.iter_mut() {
+                            *w = words[(i % nw) as usize];
+                            i /= nw;
+                        }
+                        let els: Vec<B64> = st_words.iter().map(|w| B64::from_mont(*w)).collect();
+                        let st: Vec<u128> = els.iter().map(|e| e.as_int() as u128).collect();
+                        let want = refhash::matvec(&mds, &st, P64);
+                        let got: Vec<B64> = if width == 12 {
+                            let mut real: [B64; 12] = core::array::from_fn(|i| els[i]);
+                            crypto::verif_hooks::mds_multiply_12x12(&mut real);
+                            real.to_vec()
+                        } else {
+                            let mut real: [B64; 8] = core::array::from_fn(|i| els[i]);
+                            crypto::verif_hooks::mds_multiply_8x8(&mut real);
+                            real.to_vec()
+                        };
+                        for i in 0..width {
+                            if got[i].as_int() as u128 != want[i] || got[i] != B64::new(want[i] as u64) {
+                                out.violation(format!("mds {width}x{width}: frequency-domain product differs from the plain matrix product on a state of boundary internal words"), json!({"internal_words": st_words.iter().map(|x| format!("{:#x}", x)).collect::<Vec<_>>(), "row": i, "got_image": format!("{:#x}", got[i].inner())}));
+                                break;
+                            }
+                        }
+                    }
+                    out.evals(hi - cidx * chunk - 1);
+                    out.nontrivial_n(hi - cidx * chunk);
+                },
+                move |cidx| json!({"states": format!("{}..{} of {:x?}^{}", cidx * chunk, (cidx + 1) * chunk, w2, width)}),
+            ));
+        }
+    }
     // ---- full permutation against the reference round function
     let nperm: u64 = if thorough { 200_000 } else { 12_000 };
     for which in 0..3u64 {
